@@ -407,7 +407,7 @@ def run(ctx):
         ctx.extra["race_detector_runs"] = len(rins)
     header = ("From Coq Require Import List NArith ZArith Bool.\nImport ListNotations.\n"
               "From PV Require Import Common.Corr Model.Char6 Model.Intern.\nOpen Scope Z_scope.\n")
-    mism, err = coq_eval_mismatches("cases_C38b", header, terms, "intern_chk", shard_size=max(40, len(terms) // 6 + 1))
+    mism, err = coq_eval_mismatches("cases_C38b", header, terms, "intern_chk", shard_size=max(25, len(terms) // 12 + 1))
     if err:
         raise RuntimeError(err)
     for k in mism:
